@@ -99,13 +99,15 @@ impl DSet {
 
 /// Texts. The first five are the sub-alphabet of the sequence families. 10..15 are partial D0
 /// delimiters, 15..18 partial D1 delimiters, 18.. characters sharing UTF-8 bytes with D2.
-const TEXTS: [&str; 22] = [
+const TEXTS: [&str; 28] = [
     "", "a", " ", " a ", " \n\t", // sequence sub-alphabet
     "\n", "é", " é ", "\u{a0}x", "x\u{a0}", // other whitespace, multi-byte, U+00A0 at either end
     "{", "%}", "}}", "#}", "{ {", // lone / partial default delimiters
     "<", "< <", "%>>>#>", // lone start character and the three end delimiters of D1
     "»§¡", "ëöÿ", // the end delimiters of D2; characters sharing the trailing byte with D2 starts
     "(", "a<", // first bytes of D3's start delimiters directly before a tag of another kind
+    "\r\n", " \r", "\u{feff}a ", // CRLF, a lone CR after a blank, a BOM (not whitespace) in front
+    "a\u{2003}", "\u{2003}a", "\u{301} ", // an em space at either end, a combining mark (not whitespace) in front of a blank
 ];
 const SUB5: [u8; 5] = [0, 1, 2, 3, 4];
 const SUB2: [u8; 2] = [0, 3];
